@@ -10,7 +10,7 @@
    other datatype.  The harness validates it against the real DisplayContext on every run. *)
 From Coq Require Import ZArith List Bool Arith Lia.
 From Coq Require String.
-From Verif Require Model.PyMini Model.PrimsRender Gen.SrcRender Proofs.SrcRender Proofs.SrcRenderTop Proofs.SrcRenderCsv Proofs.SrcRenderText Proofs.SrcRenderText2 Model.PrimsRenderPos Proofs.SrcRenderAmount.
+From Verif Require Model.PyMini Model.PrimsRender Gen.SrcRender Proofs.SrcRender Proofs.SrcRenderTop Proofs.SrcRenderCsv Proofs.SrcRenderText Proofs.SrcRenderText2 Model.PrimsRenderPos Proofs.SrcRenderAmount Model.PrimsRenderCost Proofs.SrcRenderCost Gen.SrcRenderSet Model.PrimsRenderSet Proofs.SrcRenderSet.
 Import ListNotations.
 From Verif Require Import Base.Out Base.StableSort Base.PyValue Model.Render Model.RenderCheck Proofs.RenderProofs Proofs.RenderCheckProofs.
 
@@ -583,4 +583,162 @@ Example C16_source_amount_example :
        (fun r => PyMini.bind (call_method cr (prims_amt nf) render_amount_format (fst r) [enc_amt (mkdec false 7 0, [69; 85]%Z)])
                    (fun r2 => Ok (snd r, snd r2)))) =
   Ok (PInt 5, PV (VStr [55; 32; 69; 85; 32]%Z)).
+Proof. split; [reflexivity|]. split; [repeat constructor|vm_compute; reflexivity]. Qed.
+
+(* CostRenderer (bld-render4 / bld-render5; Proofs/SrcRenderCost.v): the owned AmountRenderer runs AmountRenderer's translated
+   methods on the (number, currency) of the cost (Model/PrimsRenderCost.v: prims_cost, cost_as_amt); `{date:%Y-%m-%d}` is
+   Render.date_str; the label goes between double quotes as it is. *)
+Import Verif.Model.PrimsRenderCost Verif.Proofs.SrcRenderCost.
+
+Theorem C16_source_cost_init : forall (call_ref : nat -> list pv -> pv)
+    (numfmt : list (dec * str) -> dec -> str -> str) (kq : nat) (ctx : pv) (ka : nat),
+  call_ref ka [ctx] = fresh_amt kq a_init -> ka = 2%nat ->
+  PyMini.bind (call_method call_ref (prims_cost call_ref numfmt) render_base_init [] [ctx])
+       (fun r => call_method call_ref (prims_cost call_ref numfmt) render_cost_init_tail (fst r) [ctx]) =
+  Ok (cost_env kq (PInt 0) (PBool false) c_init, PNone).
+Proof. exact cost_init_src. Qed.
+Print Assumptions C16_source_cost_init.
+
+Theorem C16_source_cost_update : forall (call_ref : nat -> list pv -> pv) (quant : dec -> str -> dec)
+    (numfmt : list (dec * str) -> dec -> str -> str) (kq : nat),
+  (forall d c, call_ref kq [PV (VDec d); PV (VStr c)] = PV (VDec (quant d c))) ->
+  forall (mw prep : pv) (st : cstate) (v : cost),
+  call_method call_ref (prims_cost call_ref numfmt) render_cost_update (cost_env kq mw prep st) [enc_cost v] =
+  Ok (cost_env kq mw prep (c_update quant st v), PNone).
+Proof. exact cost_update_src. Qed.
+Print Assumptions C16_source_cost_update.
+
+Theorem C16_source_cost_column : forall (call_ref : nat -> list pv -> pv) (quant : dec -> str -> dec)
+    (numfmt : list (dec * str) -> dec -> str -> str) (kq : nat),
+  (forall d c, call_ref kq [PV (VDec d); PV (VStr c)] = PV (VDec (quant d c))) ->
+  forall (vals : list cost) (mw prep : pv) (st : cstate),
+  run_updates_p call_ref (prims_cost call_ref numfmt) render_cost_update (cost_env kq mw prep st) (map enc_cost vals) =
+  Ok (cost_env kq mw prep (fold_left (c_update quant) vals st)).
+Proof. exact cost_column_src. Qed.
+Print Assumptions C16_source_cost_column.
+
+Theorem C16_source_cost_prepare : forall (call_ref : nat -> list pv -> pv)
+    (numfmt : list (dec * str) -> dec -> str -> str) (kq : nat) (mw prep : pv) (st : cstate),
+  no_default (c_a st) ->
+  PyMini.bind (call_method call_ref (prims_cost call_ref numfmt) render_cost_prepare_head (cost_env kq mw prep st) [])
+       (fun r => call_method call_ref (prims_cost call_ref numfmt) render_base_prepare (fst r) []) =
+  Ok (cost_ready numfmt kq st, PInt (Z.of_nat (c_width numfmt st))).
+Proof. exact cost_prepare_src. Qed.
+Print Assumptions C16_source_cost_prepare.
+
+Theorem C16_source_cost_format : forall (call_ref : nat -> list pv -> pv)
+    (numfmt : list (dec * str) -> dec -> str -> str) (kq : nat) (st : cstate) (v : cost),
+  call_method call_ref (prims_cost call_ref numfmt) render_cost_format (cost_ready numfmt kq st) [enc_cost v] =
+  Ok (cost_ready numfmt kq st, PV (VStr (c_format numfmt st v))).
+Proof. exact cost_format_src. Qed.
+Print Assumptions C16_source_cost_format.
+
+(* the formatted cell of any value the column has seen fits the width prepare() answers: the amount part by hypothesis
+   (the number formatter is abstract), the date when %Y-%m-%d gives 10 characters (four-digit years), the label because
+   update() reserved len(label) + 4 and format() adds exactly ', ' and two quotes to the label AS IS *)
+Theorem C16_cost_fits : forall (quant : dec -> str -> dec) (numfmt : list (dec * str) -> dec -> str -> str)
+    (vals : list cost) (v : cost),
+  let st := fold_left (c_update quant) vals c_init in
+  In v vals ->
+  (List.length (a_format numfmt (c_a st) (c_amt v)) <= a_width numfmt (c_a st))%nat ->
+  (forall y m d, c_date v = Some (y, m, d) -> List.length (date_str y m d) = 10%nat) ->
+  (List.length (c_format numfmt st v) <= c_width numfmt st)%nat.
+Proof. exact cost_fits. Qed.
+Print Assumptions C16_cost_fits.
+
+(* SetRenderer / EnumRenderer (bld-render5; Gen/SrcRenderSet.v, Model/PrimsRenderSet.v, Proofs/SrcRenderSet.v): a set is the
+   list of its elements in any order, sorted() = Render.sort_strs, sum() = left fold of +, sep.join = Render.join *)
+Import Verif.Gen.SrcRenderSet Verif.Model.PrimsRenderSet Verif.Proofs.SrcRenderSet.
+
+Theorem C16_source_set_init : forall (call_ref : nat -> list pv -> pv) (dc : pv) (o : opts),
+  PyMini.bind (call_method call_ref prims_set render_base_init [] [enc_ctx dc o])
+       (fun r => call_method call_ref prims_set render_set_init_tail (fst r) [enc_ctx dc o]) =
+  Ok (set_env (PInt 0) (PBool false) (o_listsep o), PNone).
+Proof. exact set_init_src. Qed.
+Print Assumptions C16_source_set_init.
+
+Theorem C16_source_set_update : forall (call_ref : nat -> list pv -> pv) (w : Z) (prep : pv) (sep : str) (l : list str),
+  call_method call_ref prims_set render_set_update (set_env (PInt w) prep sep) [enc_set l] =
+  Ok (set_env (PInt (set_update sep w l)) prep sep, PNone).
+Proof. exact set_update_src. Qed.
+Print Assumptions C16_source_set_update.
+
+Theorem C16_source_set_column : forall (call_ref : nat -> list pv -> pv) (ls : list (list str)) (w : Z) (prep : pv) (sep : str),
+  run_updates_p call_ref prims_set render_set_update (set_env (PInt w) prep sep) (map enc_set ls) =
+  Ok (set_env (PInt (fold_left (set_update sep) ls w)) prep sep).
+Proof. exact set_column_src. Qed.
+Print Assumptions C16_source_set_column.
+
+Theorem C16_source_set_prepare : forall (call_ref : nat -> list pv -> pv) (w prep : pv) (sep : str),
+  call_method call_ref prims_set render_base_prepare (set_env w prep sep) [] = Ok (set_env w (PBool true) sep, w).
+Proof. exact set_prepare_src. Qed.
+Print Assumptions C16_source_set_prepare.
+
+Theorem C16_source_set_format : forall (call_ref : nat -> list pv -> pv) (mw prep : pv) (sep : str) (l : list str),
+  call_method call_ref prims_set render_set_format (set_env mw prep sep) [enc_set l] =
+  Ok (set_env mw prep sep, PV (VStr (set_format sep l))).
+Proof. exact set_format_src. Qed.
+Print Assumptions C16_source_set_format.
+
+(* __init__, update over the sets of the column, prepare, format: the width and the cell of Render.col_prepare / st_width /
+   st_format for a TSet column *)
+Theorem C16_source_set_lifecycle : forall (call_ref : nat -> list pv -> pv) (quant : dec -> str -> dec)
+    (numfmt : list (dec * str) -> dec -> str -> str) (dc : pv) (o : opts) (vals : list cellv),
+  let W := fold_left (set_update (o_listsep o)) (the_sets vals) 0 in
+  PyMini.bind (PyMini.bind (call_method call_ref prims_set render_base_init [] [enc_ctx dc o])
+             (fun r => call_method call_ref prims_set render_set_init_tail (fst r) [enc_ctx dc o]))
+       (fun r => PyMini.bind (run_updates_p call_ref prims_set render_set_update (fst r) (map enc_set (the_sets vals)))
+                      (fun flds => call_method call_ref prims_set render_base_prepare flds [])) =
+  Ok (set_env (PInt W) (PBool true) (o_listsep o), PInt W) /\
+  Z.to_nat W = st_width numfmt (col_prepare quant o TSet vals) /\
+  forall l, call_method call_ref prims_set render_set_format (set_env (PInt W) (PBool true) (o_listsep o)) [enc_set l] =
+            Ok (set_env (PInt W) (PBool true) (o_listsep o),
+                enc_out (st_format numfmt o TSet (col_prepare quant o TSet vals) (CSet l))).
+Proof. exact set_lifecycle_src. Qed.
+Print Assumptions C16_source_set_lifecycle.
+
+Theorem C16_source_enum_format : forall (call_ref : nat -> list pv -> pv) (flds : env) (n : str),
+  call_method call_ref prims_set render_enum_format flds [enc_enum n] = Ok (flds, PV (VStr n)).
+Proof. exact enum_format_src. Qed.
+Print Assumptions C16_source_enum_format.
+
+Theorem C16_source_renderset_no_opaque : SrcRenderSet.refs = [].
+Proof. reflexivity. Qed.
+Print Assumptions C16_source_renderset_no_opaque.
+
+(* InventoryRenderer.positionsortkey, the key format() sorts positions by: (currency, -number, (cost currency, -cost number,
+   cost date) or ()).  Only this static method of InventoryRenderer is tied by translation. *)
+Theorem C16_source_inventory_sortkey : forall (call_ref : nat -> list pv -> pv) (u : amt) (c : option cost),
+  call_function call_ref prims_invkey render_inv_sortkey [enc_fpos u c] = Ok (inv_sortkey u c).
+Proof. exact inv_sortkey_src. Qed.
+Print Assumptions C16_source_inventory_sortkey.
+
+(* Non-vacuity: a set column {b, a}, NULL, {ccc} with listsep ', ' through the translated __init__ / update / prepare / format *)
+Example C16_source_set_example :
+  let o := mkopts false false false false true [] [44; 32]%Z in
+  let vals := [CSet [[98]; [97]]; CNull; CSet [[99; 99; 99]]]%Z in
+  PyMini.bind (PyMini.bind (PyMini.bind (call_method (fun _ _ => PNone) prims_set render_base_init [] [enc_ctx PNone o])
+             (fun r => call_method (fun _ _ => PNone) prims_set render_set_init_tail (fst r) [enc_ctx PNone o]))
+       (fun r => PyMini.bind (run_updates_p (fun _ _ => PNone) prims_set render_set_update (fst r) (map enc_set (the_sets vals)))
+                      (fun flds => call_method (fun _ _ => PNone) prims_set render_base_prepare flds [])))
+       (fun r => PyMini.bind (call_method (fun _ _ => PNone) prims_set render_set_format (fst r) [enc_set [[98]; [97]]%Z])
+                   (fun r2 => Ok (snd r, snd r2))) =
+  Ok (PInt 4, PV (VStr [97; 44; 32; 98]%Z)).
+Proof. vm_compute. reflexivity. Qed.
+
+(* Non-vacuity: two costs (one dated, one labelled "lot") through the translated CostRenderer methods with the toy formatter of
+   C16_source_amount_example: width 5 + 12 + 7, cell  7 EU , "lot"  *)
+Example C16_source_cost_example :
+  let cr : nat -> list pv -> pv := fun _ args => match args with [d; _] => d | _ => PNone end in
+  let nf : list (dec * str) -> dec -> str -> str := fun ups d c => show_int (dcoef d) in
+  let v1 := mkcost (mkdec false 12 0, [85; 83; 68]%Z) (Some (2020, 1, 2)%Z) None in
+  let v2 := mkcost (mkdec false 7 0, [69; 85]%Z) None (Some [108; 111; 116]%Z) in
+  (forall d c, cr 0%nat [PV (VDec d); PV (VStr c)] = PV (VDec (no_quant d c))) /\
+  no_default (c_a (fold_left (c_update no_quant) [v1; v2] c_init)) /\
+  PyMini.bind (run_updates_p cr (prims_cost cr nf) render_cost_update (cost_env 0 (PInt 0) (PBool false) c_init) (map enc_cost [v1; v2]))
+    (fun flds => PyMini.bind (PyMini.bind (call_method cr (prims_cost cr nf) render_cost_prepare_head flds [])
+                                (fun r => call_method cr (prims_cost cr nf) render_base_prepare (fst r) []))
+       (fun r => PyMini.bind (call_method cr (prims_cost cr nf) render_cost_format (fst r) [enc_cost v2])
+                   (fun r2 => Ok (snd r, snd r2)))) =
+  Ok (PInt 24, PV (VStr [55; 32; 69; 85; 32; 44; 32; 34; 108; 111; 116; 34]%Z)).
 Proof. split; [reflexivity|]. split; [repeat constructor|vm_compute; reflexivity]. Qed.
